@@ -1,12 +1,19 @@
 /-
 C07 — witnesses: the full-strength statement "the circuit accepts exactly when the native
 verifier accepts" is false of the current code already at the level of shape validation.
-Each theorem exhibits a concrete shape vector on which `CircuitShapeOk` and `NativeShapeOk`
-differ, i.e. shows that a hypothesis of `P3R.C07.fri_shape_iff` cannot be dropped. The same
-inputs are replayed on the real code on every run (`corpus/c07/f2…f5`), where the real
-`verify_fri` rejects / accepts and the real circuit accepts / cannot be built.
+Each `shape_needs_*` theorem exhibits a concrete shape vector on which `CircuitShapeOk` and
+`NativeShapeOk` differ, i.e. shows that a hypothesis of `P3R.C07.fri_shape_iff` cannot be dropped.
+The same inputs are replayed on the real code on every run (`corpus/c07/f2, f3, f5`), where the
+real `verify_fri` rejects and the real circuit accepts.
 
-Also: a non-vacuity example for the hypotheses of `fri_shape_iff`.
+Regression records of repaired defects (the former negation witnesses, restated): 
+`arity_zero_rejected_by_both` (C07-F3c, f783d84), `zero_phase_accepted_by_both` and
+`zero_phase_altered_final_poly_rejected_by_both` (C07-F4, 0e5036a; `corpus/c07/f4_zero_phase.json`
+must now be accepted by both verifiers).
+
+Also: non-vacuity examples for the hypotheses of `fri_shape_iff` (with and without fold phases) and
+of the two rejection theorems `height_above_two_adicity_rejected_by_both`,
+`sibling_count_mismatch_rejected_by_both`.
 -/
 import P3R.Props.C07
 
@@ -30,8 +37,8 @@ example : honest.queries.length = honest.p.numQueries ∧
     (∀ la ∈ honest.firstArities, la ≤ honest.p.maxLogArity) ∧
     (∀ b ∈ honest.batches, ∀ m ∈ b, m.2 ≠ []) ∧
     (∀ h ∈ honest.heights, h = honest.logMax ∨ h ∈ honest.foldedHeights) ∧
-    honest.numBetas = honest.numCommits ∧ (honest.twoAdicity ≤ 31 ∧ honest.logMax ≤ honest.twoAdicity) ∧
-    honest.numCommits ≠ 0 ∧ CircuitShapeOk honest ∧ NativeShapeOk honest := by decide
+    honest.numBetas = honest.numCommits ∧ honest.twoAdicity ≤ 31 ∧
+    CircuitShapeOk honest ∧ NativeShapeOk honest := by decide
 
 /-- H1 is necessary: the proof carries one query, the verifier's parameter says two. The circuit
 has no `num_queries` parameter and accepts; native returns `QueryProofCountMismatch`. -/
@@ -52,13 +59,56 @@ theorem shape_needs_arity_upper_bound :
                             queries := [q [2] [[3]], q [2] [[3]]] }
     CircuitShapeOk sv ∧ ¬ NativeShapeOk sv := by decide
 
-/-- H7 is necessary, in the other direction: only height-one matrices, no fold phase. Native
-accepts the shape (and the honest proof); the circuit refuses to build
-("FRI must have at least one fold phase"). -/
-theorem shape_needs_phase :
-    let sv : ShapeVec := { p := params 1 2 0, twoAdicity := 27, numBetas := 0, numCommits := 0, numPow := 0,
-                           finalLen := 1, batches := [[(0, [3])]], queries := [q [] [[3]], q [] [[3]]] }
-    NativeShapeOk sv ∧ ¬ CircuitShapeOk sv := by decide
+/-- Only height-one matrices, constant final polynomial, no fold phase (the shape of
+`corpus/c07/f4_zero_phase.json`). -/
+def zeroPhase : ShapeVec :=
+  { p := params 1 2 0, twoAdicity := 27, numBetas := 0, numCommits := 0, numPow := 0,
+    finalLen := 1, batches := [[(0, [3])]], queries := [q [] [[3]], q [] [[3]]] }
+
+/-- Regression for C07-F4 (repo fix 0e5036a). This vector used to witness
+`NativeShapeOk sv ∧ ¬ CircuitShapeOk sv` (`shape_needs_phase`: the circuit refused to build, "FRI
+must have at least one fold phase"); now both sides accept it, and it satisfies every hypothesis of
+`fri_shape_iff` — that theorem, which no longer assumes a fold phase, covers it. -/
+theorem zero_phase_accepted_by_both :
+    NativeShapeOk zeroPhase ∧ CircuitShapeOk zeroPhase ∧
+    zeroPhase.queries.length = zeroPhase.p.numQueries ∧
+    (∀ la ∈ zeroPhase.firstArities, la ≤ zeroPhase.p.maxLogArity) ∧
+    (∀ b ∈ zeroPhase.batches, ∀ m ∈ b, m.2 ≠ []) ∧
+    (∀ h ∈ zeroPhase.heights, h = zeroPhase.logMax ∨ h ∈ zeroPhase.foldedHeights) ∧
+    zeroPhase.numBetas = zeroPhase.numCommits ∧ zeroPhase.twoAdicity ≤ 31 := by decide
+
+/-- The other half of the C07-F4 regression: without fold phase a final polynomial `[c]` different
+from the reduced opening is refused by both models (circuit: a violated `connect`, i.e. the runner
+fails; native: `FinalPolyMismatch`) — every field, index and height. -/
+theorem zero_phase_altered_final_poly_rejected_by_both {K : Type} [Field K] [DecidableEq K]
+    (env : Env K) (p : Params) (logMax index : Nat) (phases : List (Phase K)) (c ro0 : K) (h : ro0 ≠ c) :
+    (queryTailC env logMax 0 [] [] [c] (indexBits logMax index) phases [(logMax, ro0)]).run {} =
+        .ok ((), { unsat := true }) ∧
+      queryCheckN env p [] 0 [c] 0 logMax logMax index phases [(logMax, ro0)] = .error .finalPolyMismatch := by
+  have h' : ¬ c = ro0 := fun e => h e.symm
+  rw [query_tail_zero_phase, query_check_zero_phase]
+  simp [evalPoly, h, h']
+
+/-- …and the honest value is accepted by both. -/
+theorem zero_phase_honest_final_poly_accepted_by_both {K : Type} [Field K] [DecidableEq K]
+    (env : Env K) (p : Params) (logMax index : Nat) (phases : List (Phase K)) (c : K) :
+    (queryTailC env logMax 0 [] [] [c] (indexBits logMax index) phases [(logMax, c)]).run {} =
+        .ok ((), { unsat := false }) ∧
+      queryCheckN env p [] 0 [c] 0 logMax logMax index phases [(logMax, c)] = .ok () := by
+  rw [query_tail_zero_phase, query_check_zero_phase]
+  simp [evalPoly]
+
+/-- Non-vacuity of `height_above_two_adicity_rejected_by_both` (F9i): `log_max_height = 28` on a
+field of two-adicity 27 — below the 31-bit bound, so only the new test refuses it. -/
+example :
+    let sv := { honest with p := { honest.p with logBlowup := 26 } }
+    sv.twoAdicity < sv.logMax ∧ sv.logMax ≤ 31 := by decide
+
+/-- Non-vacuity of `sibling_count_mismatch_rejected_by_both` (F9d): one sibling value too many. -/
+example :
+    let bad : QShape := { arities := [1, 1], sibCounts := [2, 1], opened := [[3]] }
+    let sv := { honest with queries := [bad, q [1, 1] [[3]]] }
+    bad ∈ sv.queries ∧ ¬ SibsOk bad := by decide
 
 /-- H4 is necessary: final polynomial length 4, matrices of log size 5 and 1: log-height 2 lies
 below the final height 3 and is reached by no fold phase. Native: `UnconsumedReducedOpenings`;
